@@ -18,32 +18,55 @@ P = {'id': 'C16',
               'min_version_overtakes_refuted',
               'reclaim_unsafe_refuted',
               'dangling_manager_refuted',
-              'cache_crosses_managers_refuted'],
+              'cache_crosses_managers_refuted',
+              'process_safe_items_spec',
+              'queue_in_age_order',
+              'bulk_reclaim_safe',
+              'handed_back_safe',
+              'handed_back_safe_after',
+              'process_safe_default_is_take_safe',
+              'spec_invariants',
+              'step_refines',
+              'run_refines',
+              'property_from_spec',
+              'deadlock_free',
+              'mutex_free_at_quiescence',
+              'counters_exact_at_rest',
+              'drain_empties',
+              'counters_bounded_always'],
  'trusted': ['modelled (M+S): src/fsa/version_sync.rs VersionManager::{acquire_reader_token, acquire_writer_token, release_reader_token, '
              'release_writer_token, try_advance_min_version} one shared access per step in the code\'s order, token_chain_mutex as an owner field, '
              'LazyFreeList::process_safe_items / LazyFreeItem::can_free; src/fsa/token.rs TokenManager::{acquire_*_token, return_*_token, '
-             'clear_thread_cache} with the per-thread TOKEN_CACHE; sequential histories over several managers with the cache shared by all of them',
+             'clear_thread_cache} with the per-thread TOKEN_CACHE; sequential histories over several managers with the cache shared by all of them; '
+             'token::with_reader_token / with_writer_token (acquire through the cache, one schedule point while the closure owns the token, return to the cache), '
+             'tokens handed from thread to thread (a mailbox in the shared state: released by another thread than the acquiring one), '
+             'LazyFreeList::{with_bulk_threshold, push, process_safe_items with the list\'s own threshold (the loop as written: a threshold of 0 frees one item), '
+             'should_bulk_process (2 x threshold, saturating)}, 40-item retirements, clear_all_stats as a no-op on the modelled state; the LazyFreeList alone under '
+             'scripts of push / process / gated process / clear_stats / drain (coq/C16/ModelLazy.v)',
              'schedule hooks (cfg zipora_verif, src/fsa/verif_sched.rs + calls in version_sync.rs) are trusted to sit before every shared access of '
              'the modelled functions; the harness scheduler lets exactly one real thread run from one hook to the next',
              'atomics are modelled as sequentially consistent: the Relaxed/Acquire/Release orderings in the code and the hardware memory model are not modelled',
-             'not modelled: statistics mutexes and Instant timing, poisoned-mutex paths, tokens moved to and dropped by another thread, a VersionManager '
-             'moved in memory while tokens issued by it are live'],
+             'not modelled: statistics mutexes and Instant timing, poisoned-mutex paths, a closure of with_*_token that fails or panics, a VersionManager '
+             'moved in memory while tokens issued by it are live; the extended sequential histories (cell seqx) and the long generated histories (cell long) are judged by the oracle only'],
  'assumptions': ['fewer than 2^64 acquisitions from one manager (current_version and the active counters do not wrap)',
                  'sequential consistency of the atomics (see trusted)',
                  'agreement of model and code is established on the enumerated and generated schedules only (every step of every run is compared)'],
  'level_text': 'Machine-checked Coq theorems about a small-step model of the version/token protocol (one atomic access, mutex acquisition or mutex '
-               'release per step; any number of threads, any programs of acquire/drop/cache/retire/reclaim operations, any schedule): in '
+               'release per step; any number of threads, any programs of acquire/drop/cache/with_*_token/hand-over/retire/(gated) bulk-reclaim operations, any bulk threshold, any schedule): in '
                'OneWriteMultiRead at most one writer token is ever live and a request arriving while one is live is refused; at every level '
                'min_version never exceeds the version of a live token, so process_safe_items(min_version) never frees an item retired at or after a '
-               'live token\'s version; the active counters equal the numbers of live tokens whenever no operation is in flight and are zero at the end. '
+               'live token\'s version, and every item that leaves the lazy free list in a step of any interleaving is older than every token live before and after that step '
+               '(the queue stays in age order; process_safe_items frees a prefix of it, at most max(1, threshold) items per call, and drains it under repeated calls); the active counters equal the numbers of live tokens whenever no operation is in flight and are zero at the end. '
+               'Refinement: every step of the interleaving semantics is a step of a small abstract specification (multisets of live reader / writer versions '
+               'and the threshold; acquire, release, advance), whose invariants are the clauses of the property. '
                'These hold for the access order of the code after two fix: commits; for the order of the pinned tree the same model refutes (i) and '
                '(ii) with explicit schedules that also failed on the real code. The model is tied to the code on every run by executing real threads '
                'under explicit schedules (hooks before every shared access) and comparing every step with the model evaluated in Coq.',
  'level_note': 'Trusted: Coq kernel + vm_compute; hand-written model; hook placement; harness scheduler and oracle. For (iv) the model carries the Arc '
                'reference count of each manager state (seq_no_dangling); on the real code every release consults a registry of destroyed manager states '
                '(hook), also at thread exit.',
- 'technique': 'Coq: inductive invariant over all reachable states of an interleaving semantics (rely/guarantee-style frame lemmas), refutation by '
+ 'technique': 'Coq: inductive invariant over all reachable states of an interleaving semantics (rely/guarantee-style frame lemmas), forward simulation to an abstract specification (token-conservation lemma per step), refutation by '
               'vm_compute on explicit schedules; controlled-scheduler (baton passing) differential check of real threads against the model; '
               'pre-emption-bounded schedule enumeration + random schedules; direct oracle on observed tokens and counters',
- 'explanation': 'Unbounded theorems for the concurrent protocol; sequential multi-manager histories checked by model correspondence and oracle.',
+ 'explanation': 'Unbounded theorems for the concurrent protocol (incl. with_*_token, hand-over between threads, bulk reclamation with any threshold), a refinement to an abstract specification, deadlock freedom; the lazy free list proved on its own; sequential multi-manager histories checked by model correspondence and oracle.',
  'harness_timeout': 1500}
